@@ -259,8 +259,12 @@ func buildEvidence(id, tier string, seed int, out *sym.RunOutput, validated int,
 		"inconclusive": inconcl, "exhaustive": false,
 		"explanation": "states = symbolic states created; transitions = SSA instructions executed symbolically; every obligation is pathcondition ∧ ¬assertion sent to an SMT solver; unsat = holds for every input within the bounds listed per entry",
 	}
+	notes := out.Spec.Notes
+	if notes == nil {
+		notes = []string{}
+	}
 	return &evidence{PropertyID: id, Tier: tier, Seed: seed, Level: "model_checking", Coverage: cov,
-		Assumptions: out.Spec.Notes, Violations: len(viol)}
+		Assumptions: notes, Violations: len(viol)}
 }
 
 func cmdReplay(args []string) int {
